@@ -169,6 +169,8 @@ impl CompactionWorker {
             .await
             .map_err(|e| CompactorError::ZoneWriter(e.to_string()))?;
 
+        #[cfg(feature = "sim-hooks")]
+        crate::sim_hooks::gate("compact.output_written", format!("s{}", self.shard_id)).await;
         // Prepare new entries for handover
         // When multiple UIDs are compacted from the same input segments,
         // they should all go into ONE output segment (not separate segments per UID)
@@ -198,6 +200,8 @@ impl CompactionWorker {
             .commit_batch(&batch, new_entries)
             .await
             .map_err(|e| CompactorError::SegmentIndex(e.to_string()))?;
+        #[cfg(feature = "sim-hooks")]
+        crate::sim_hooks::gate("compact.list_updated", format!("s{}", self.shard_id)).await;
 
         if tracing::enabled!(tracing::Level::INFO) {
             info!(
